@@ -2,6 +2,8 @@
 //   (default)        correspondence cases:
 //                      cases_*.v  scalar single steps under every alias pattern (format of C01.Corr)
 //                      mat_*.v    matrix / vector calls on shared storage (format of C08.Corr)
+//                      sp_*.v     sparse containers (sparse.go): histories + one aliased call, all nine element
+//                                 types, every stored pattern of the receiver (format of C08.CorrS on C03.ModelM)
 //   --extra hunt     the property's own observable on the implementation: aliased call vs. the same
 //                    call on a fresh receiver with cloned operands; exhaustive over alias patterns x
 //                    orders {0,1,2}^2 x N <= 2 for every scalar operation, random views for matrices;
@@ -39,6 +41,7 @@ func main() {
 type corpusLine struct {
 	Scen *Scen    `json:"scen,omitempty"`
 	Mat  *MatCase `json:"mat,omitempty"`
+	Sp   *SpCase  `json:"sp,omitempty"`
 }
 
 func readCorpus(path string) []corpusLine {
@@ -105,8 +108,30 @@ func corr(o Opts) {
 			mw.Count("outcome:panic")
 		}
 	}
+	sw := NewCaseWriter(o.Out, "sp", hdrSp, "smism", 60)
+	sw.Type = "scase"
+	sw.Rule = "sparse containers: a history building sparse/dense vectors and matrices (receiver stored pattern: nothing stored / nothing at index 0 / value at 0 / explicit zero at 0 / only index 0 / full / only an explicit zero at 0 / dimension 0), then ONE call: MdotV, VdotM (sparse and dense receiver identical to the vector operand, or distinct operands with a stale receiver), sparse MdotM (r=a, r=b, r=a=b, none), VaddV/VsubV/VmulV, MaddM/MsubM/MmulM (r=a, r=b, r=a=b, none), VaddS/VmulS (r=a); all nine element types; values -3..3; non-trivial iff the receiver is an operand; distinct = (type, call, pattern, store, ops)"
+	semit := func(c *SpCase, tag string) {
+		c.execute()
+		sw.Add(c.Coq(), corpusLine{Sp: c}, c.key(), c.Pat != "none")
+		sw.Count("call:" + c.Call)
+		sw.Count("type:" + c.Type)
+		sw.Count("pattern:" + c.Call + ":" + c.Pat + ":" + c.Recv)
+		sw.Count("store:" + c.Store)
+		sw.Count("stream:" + tag)
+		if c.Outs[len(c.Outs)-1].K == spPANIC {
+			sw.Count("outcome:panic:" + c.Call + ":" + c.Pat)
+		} else {
+			sw.Count("outcome:returns:" + c.Call + ":" + c.Pat)
+		}
+	}
 	// committed corpus first
 	for _, c := range readCorpus(o.Extra) {
+		if c.Sp != nil {
+			m := *c.Sp
+			m.Outs = nil
+			semit(&m, "corpus")
+		}
 		if c.Scen != nil {
 			emit(c.Scen, "corpus")
 		}
@@ -180,6 +205,15 @@ func corr(o Opts) {
 		}
 	}
 	if err := mw.Flush(); err != nil {
+		Die("%v", err)
+	}
+	// sparse containers: products complete for every element type, element-wise thinned out in the quick tier
+	for ti, tn := range spTypes {
+		for _, c := range spCases(o.Seed+uint64(ti)*7919, tn, full) {
+			semit(c, "generated")
+		}
+	}
+	if err := sw.Flush(); err != nil {
 		Die("%v", err)
 	}
 }
@@ -316,6 +350,29 @@ func hunt(o Opts) {
 			out.Aliased++
 		}
 	}
+	// sparse containers: several seeds per element type, every (call, pattern, stored pattern)
+	reps := 2
+	if o.N >= 1000 {
+		reps = 8
+	}
+	for rep := 0; rep < reps; rep++ {
+		for ti, tn := range spTypes {
+			for _, c := range spCases(o.Seed+uint64(ti)*7919+uint64(rep)*104729, tn, true) {
+				site := "sparse:" + c.Call + ":" + c.Pat + ":" + c.Recv
+				st := out.BySite[site]
+				st[0]++
+				out.Points++
+				if c.Pat != "none" {
+					out.Aliased++
+				}
+				if h := spOracle(c); h != nil {
+					st[1]++
+					add(*h)
+				}
+				out.BySite[site] = st
+			}
+		}
+	}
 	jetHunt(o.Seed, o.N, &out, add)
 	out.Found = len(out.Hits) > 0
 	b, _ := json.MarshalIndent(out, "", " ")
@@ -419,6 +476,15 @@ func replay(o Opts) {
 			w.Add(m.Coq(), rp.Case, "replay", true)
 			w.Flush()
 		}
+		if rp.Case.Sp != nil {
+			m := *rp.Case.Sp
+			m.Outs = nil
+			m.execute()
+			w := NewCaseWriter(o.Out, "replay", hdrSp, "smism", 1000)
+			w.Type = "scase"
+			w.Add(m.Coq(), rp.Case, "replay", true)
+			w.Flush()
+		}
 		res["case_reexecuted"] = true
 	}
 	if rp.Hunt != nil {
@@ -436,6 +502,11 @@ func replay(o Opts) {
 		}
 		if rp.Hunt.Mat != nil {
 			if h := matOracle(rp.Hunt.Mat); h != nil {
+				still, fail = true, h.Failure
+			}
+		}
+		if rp.Hunt.Sp != nil {
+			if h := spOracle(rp.Hunt.Sp); h != nil {
 				still, fail = true, h.Failure
 			}
 		}
